@@ -1,5 +1,5 @@
 """Property -> rules registry."""
-from .rules import kernel, incr, rot
+from .rules import kernel, incr, rot, sched
 
 PROPS = {
     'C01': dict(
@@ -32,6 +32,41 @@ PROPS = {
         undecided=['sign conventions inside scipy Rotation (trusted library)',
                    'numerical round trip of Euler angles',
                    'entries of the Euler-angle Jacobian _phi_to_delta_rph beyond units']),
+    'C09': dict(
+        rules=[lambda c: sched.def_path(c, (sched.FB,)),
+               lambda c: sched.sched_epochs(c, (sched.FB,)),
+               lambda c: sched.sched_mcursor(c, (sched.FB,)),
+               lambda c: sched.sched_no_overtake(c, (sched.FB,)),
+               lambda c: sched.sched_progress(c, (sched.FB,)),
+               lambda c: sched.sched_sibling(c, ('feedback',)),
+               lambda c: sched.sched_handover(c, (sched.FB,)),
+               lambda c: sched.sched_pair(c, (sched.FB,))],
+        decided=['documented defaults run', 'termination (progress guard)',
+                 'every increment handed to the integrator exactly once',
+                 'epoch list de-duplicated, clipped to [start, end], sentinel last',
+                 'epoch cursor advanced exactly once per processed epoch under a strict test',
+                 'no epoch overtaken (drain before forced progress) => exactly once, in order',
+                 'one innovation and one own-time stamp per available sample'],
+        undecided=['finiteness of the numerical tables', 'accuracy of the state at which an '
+                   'epoch is processed'],
+        assumptions=['sample time index strictly increasing (input precondition)']),
+    'C10': dict(
+        rules=[lambda c: sched.def_path(c, (sched.FF,)),
+               lambda c: sched.sched_epochs(c, (sched.FF,)),
+               lambda c: sched.sched_mcursor(c, (sched.FF,)),
+               lambda c: sched.sched_no_overtake(c, (sched.FF,)),
+               lambda c: sched.sched_progress(c, (sched.FF,)),
+               lambda c: sched.sched_sibling(c, ('feedforward',)),
+               lambda c: sched.sched_handover(c, (sched.FF,)),
+               lambda c: sched.sched_pair(c, (sched.FF,)),
+               sched.step_bound],
+        decided=['documented defaults run', 'termination and strictly increasing output index '
+                 '(progress guard)', 'step never beyond max(time step, local gap)',
+                 'epoch list de-duplicated, clipped, sentinel last',
+                 'epoch cursor advanced exactly once per processed epoch',
+                 'no epoch overtaken => every epoch in [start, end) used exactly once in order'],
+        undecided=['finiteness of the numerical tables'],
+        assumptions=['trajectory time index strictly increasing (input precondition)']),
 }
 
 
